@@ -221,7 +221,7 @@ def check_binary(db, rep):
             rep.fail('C.dim.binary', f['qname'].split('<')[0] + '(' + ','.join(p['t'] for p in f['params']) + ')', where,
                      'an exception before any write or out-of-extent access for dimensions (%d,%d)' % (d1, d2),
                      '%s (%d of 20 pairs affected)' % (detail, 20 - outcomes.get('throw', 0)), key)
-    rep.floor('C.dim.binary', n_req, 17)
+    rep.floor('C.dim.binary', n_req, 15)
     rep.notes.append('discovered but not required by the property: ' + ' | '.join(notreq))
 
 
